@@ -12,7 +12,8 @@ def strlit():
 def integer():
     return rnd.choice(['0','1','-1','2','10','-0','01','9007199254740991','9007199254740992','-9007199254740991','1 2','- 1','3'])
 def number():
-    return rnd.choice(['0','1','-1','1.5','-0','-0.0','1e2','1E+2','1.5e-3','1.','.5','01','1 .5','1e','100','1.0','0.0'])
+    return rnd.choice(['0','1','-1','1.5','-0','-0.0','1e2','1E+2','1.5e-3','1.','.5','01','1 .5','1e','100','1.0','0.0',
+                       '1e2147483648','1e99999999999','1e-99999999999','1E+4294967296','1e400','1e-400','0e99999999999999999999'])
 def literal():
     return rnd.choice([number(), strlit(), 'true','false','null','True','nul'])
 def singular():
